@@ -371,7 +371,7 @@ def extra_checks(rng, tier, g, info):
     # met exactly): one row per index, in order
     import check as _check
     lens_ = sorted(set([1024] + [v for v in _check.source_literals(PID) + _check.source_literals("C01") if 256 <= v <= 2048]))
-    lens_ = lens_ if tier == "thorough" else [v for v in lens_ if v in (256, 512, 1024, 2048)][:2] or [1024]
+    lens_ = lens_ if tier == "thorough" else [1024]
     for L_ in lens_:
         w_ = impl.make_wallet("seedb:%s:%s" % (hx(bytes(range(32))), rng.choice("01")))
         a_ = rng.choice([0, 7])
